@@ -1,6 +1,8 @@
 SPECIFICATION Spec
 CONSTANTS MaxLen = 3 MaxN = 4 Infinite = FALSE MaxOut = 100
+  Vals = "nat" Stops = FALSE MaxRuns = 1
   Alphabet <- AlphaC01
+  Must <- NoMust
   Pairs <- Both
 INVARIANT Emitted
 CHECK_DEADLOCK FALSE
